@@ -101,6 +101,9 @@ def expr_term(e: ast.AST, f: FuncInfo, env: Dict[str, Term],
                 tuple(expr_term(v, f, env, aliases) for v in e.values))
     if isinstance(e, ast.UnaryOp) and isinstance(e.op, ast.Not):
         return ("not", expr_term(e.operand, f, env, aliases))
+    if isinstance(e, ast.IfExp):
+        return ("ifexp", expr_term(e.test, f, env, aliases), expr_term(e.body, f, env, aliases),
+                expr_term(e.orelse, f, env, aliases))
     if isinstance(e, ast.Subscript):
         return ("index", expr_term(e.value, f, env, aliases), expr_term(e.slice, f, env, aliases))
     if isinstance(e, ast.Slice):
